@@ -7,12 +7,12 @@ LEVEL = 'proof'
 GROUPS, UNITS = {}, []
 # iteration footprints proved by the monitor units: chunk k of parcpy/parSetZero is [next, next+len) with next advancing (pairwise disjoint);
 # merkle leaf i writes exactly slot i and node calls write exactly the watermark slot and read strictly below it
-for prop, pred in (('C17', r'parcpy$|parSetZero$'), ('C08', r'merkletree_(seq|avx|avx512)$'), ('C03', r'NTT_wrapper@(2x3|4x2)$|NTT_iters_schedule$')):
+for prop, pred in (('C17', r'parcpy$|parSetZero$'), ('C08', r'merkletree_(batch_)?(seq|avx|avx512)$'), ('C03', r'NTT_wrapper@(2x3|4x2)$|NTT_iters_schedule$|reversePermutation$|NTT_butterfly$'), ('C07', r'linear_hash$')):
     _g, _u = import_units(prop, lambda n, p=pred: re.match(p, n))
     GROUPS.update(_g); UNITS += _u
 TRUSTED_BASE = ['ASSUMED: the OpenMP execution model (each iteration of a `parallel for` executed exactly once by some thread, barrier at the end of the loop, num_threads / schedule only choose the assignment) and the C++ memory model; CBMC gives the pragmas sequential meaning - no interleaving is explored',
                 'footprints are taken from the ghost monitors of the imported units (writes of iteration k form a window that advances monotonically; reads lie below the write watermark or in read-only inputs)']
-ASSUMPTIONS = ['NTT butterfly batches and reversePermutation: the per-iteration footprints are NOT under contract yet (only the pass schedule / buffer alternation is): listed as not covered']
+ASSUMPTIONS = ['reversePermutation: iteration i writes exactly row i of dst (monitor unit, out of place); butterfly group: writes exactly its two rows (bounded unit); that the groups of one pass are pairwise disjoint across i and b is NOT under contract (it is the index structure of the DFT): listed as not covered']
 EXPLANATION = ('Race freedom is reduced to pairwise disjointness of iteration footprints, which the monitor units establish for parcpy/parSetZero (chunks), the Merkle leaf and level loops (write-once tree, reads below the watermark) '
                'and the NTT block scatter; with the assumed OpenMP semantics the result equals the sequential one for every team size and order.')
 MANIFEST_ENTRY = dict(category='proof', technique='reduction of race freedom to iteration-footprint contracts proved by ghost-monitor units (sequential semantics); OpenMP execution model assumed',
